@@ -394,6 +394,44 @@ def _bfs_case(ctx, init_idx, depth) -> F.Outcome:
 
 
 # --------------------------------------------------------------------------
+def _centuries_case(ctx, rounds) -> F.Outcome:
+    """Dates that share their YYMMDD part across centuries (a ZID only carries two year
+    digits): allocations for them draw from ONE sequence, so no ZID is handed out twice."""
+    from zorg.storage.sql._zid_manager import ZIDManager
+
+    dates = [dt.date(2024, 3, 5), dt.date(2124, 3, 5), dt.date(2024, 3, 6), dt.date(2224, 3, 5),
+             dt.date(2999, 12, 31), dt.date(2099, 12, 31), dt.date(2000, 1, 1), dt.date(2100, 1, 1)]
+    zdir = H.new_dir("zy")
+    out = F.Outcome(n_evals=0)
+    try:
+        model: dict = {}
+        seen = set()
+        err = None
+        for r in range(rounds):
+            for d in (dates if r % 2 == 0 else dates[::-1]):
+                z = ZIDManager(zdir).get_next(d)
+                out.n_evals += 1
+                key = _short(d)
+                want = f"{key}#{model.get(key, '00')}"
+                model[key] = ZM.successor(model.get(key, "00"))
+                if z in seen:
+                    err = err or {"what": "zid-returned-twice", "zid": z, "date": d.isoformat(), "round": r}
+                seen.add(z)
+                if z != want:
+                    err = err or {"what": "returned-not-the-next-of-its-yymmdd", "expected": want, "observed": z,
+                                  "date": d.isoformat(), "round": r}
+        out.n_nontrivial = out.n_evals
+        out.transitions = out.n_evals
+        out.obs = H.digest(sorted(seen))
+        if err:
+            out.ok = False
+            out.sig = "centuries:" + err["what"]
+            out.detail = err
+    finally:
+        H.rm(zdir)
+    return out
+
+
 def _many_dates_case(ctx, n_dates, rounds) -> F.Outcome:
     """Round-robin allocation over n_dates distinct dates (old and new, not in
     calendar order), `rounds` times, with a fresh manager for every allocation:
@@ -491,7 +529,7 @@ def _params(ctx):
 def _cases(ctx):
     dates = H.rotate(_DATE_POOLS, ctx.seed)[0]
     p = _params(ctx)
-    cases = [["chain"], ["alloc_chain"]]
+    cases = [["chain"], ["alloc_chain"], ["centuries", 3]]
     for kp in ("-", "o", "o P3", "x", "x P0", "~", "<", "< P9", ">", "- 2024-02-03", "o P2 2024-02-03"):
         cases.append(["writeback", kp])
     for i in range(len(_initial_contents(dates))):
@@ -524,6 +562,8 @@ def _run_case(ctx, case) -> F.Outcome:
         return _many_dates_case(ctx, case[1], case[2])
     if kind == "suffixes":
         return _suffix_chunk_case(ctx, case[2], case[1])
+    if kind == "centuries":
+        return _centuries_case(ctx, case[1])
     if kind == "writeback":
         return _writeback_case(ctx, case[1])
     raise H.HarnessError(f"bad case {case!r}")
@@ -562,7 +602,7 @@ def run(ctx: F.Ctx):
         "bounds": {**p, "suffixes_checked": nsuf, "initial_contents": 9, "events": _EVENTS,
                    "dates": [d.isoformat() for d in H.rotate(_DATE_POOLS, ctx.seed)[0]]},
         "assumptions": [
-            "dates within one century (YYMMDD of two explored dates never coincide)",
+            "in the BFS and round-robin histories the YYMMDD parts of the explored dates never coincide; dates a century apart that do share it are a separate family (one sequence per YYMMDD)",
             "single process at a time (no concurrent allocators)",
         ],
         "exhaustive": True,
